@@ -5,6 +5,7 @@ from props import poplar1_common as pc
 def run(chk):
     pc.model(chk, ["MC_Poplar1_k1", "MC_Poplar1_k2"])
     pc.record_and_validate(chk, "tamper", nchunks=14)
+    pc.record_and_validate(chk, "attack", nchunks=8)
     chk.exhaustive = False
     chk.explanation = (
         "Model: over GF(17), k = 1, 2 candidates, TLC enumerates data vectors y and authenticator vectors z over {0,1,2,-1} x {0,3,6,-3}, offsets of A and B, and ALL "
@@ -13,9 +14,15 @@ def run(chk):
         "specified. Binding: after honest sharding one bit of every (strided) byte of the public share, of both input shares, of each verifier share of both rounds and of "
         "the round-one message is flipped for trees of 2/4/9 bits at inner and leaf levels; every call is validated (decode refusals against Codec.tla, sketch arithmetic "
         "and the zero test through BigNat witnesses) and WHENEVER both aggregators finish, TLC checks that their output shares sum to all zeros or a single one. "
-        "Variant mismatches (inner/leaf state vs message, round-two state vs round-one message, shares of different kinds, 1 or 3 verifier shares) must be refused.")
-    chk.assumptions = ["malicious IDPF key material is explored through bit flips of honest messages, not through all correction-word tuples",
-                       "client strategies with re-programmed values are decided on the model only"]
+        "Message substitution: the round-one message replaced by the empty round-two message, by a truncated message, and a round-one message delivered in round two. "
+        "Variants: every (verifier state kind x round) x (sketch inner / sketch leaf / done) pair is put through verify_next and every pair of verifier-share variants "
+        "through verifier_shares_to_message; TLC judges each with Poplar1Rounds!VerifyNextOK / CombineOK (shared with the model). "
+        "Constructed malicious clients: through the public IDPF API the harness programs (y, auth*y + dz) on the input's path at an inner or the leaf level and shifts the "
+        "leader's B share by dB, for y in {0,1,2,3,-1}, dz, dB small; TLC decides with Poplar1Rounds!DevWellFormed (tied to Poplar1!WellFormed by MC invariant DevAgrees) "
+        "whether the report must be accepted under every key contributing exactly y at the on-path candidate, or refused under at least one of two independent keys.")
+    chk.assumptions = ["malicious IDPF key material beyond a re-programmed point function is explored through bit flips of honest messages, not through all correction-word tuples",
+                       "constructed clients keep the A share honest (deviations of A make the verdict depend on the secret offset a); those are decided on the model only",
+                       "a malformed report is accepted with probability <= 2/p per key (model: accept set <= 2*P^(k-1)); two keys over the 64-bit field bound a false alarm by 2^-126"]
 
 
 def replay(chk, path):
